@@ -89,7 +89,7 @@ func checkLen(n, minLen, maxLen int, what string) {
 func H_C03_sliceN() {
 	minLen, maxLen := lenBounds()
 	g := SliceOfN(Bool(), minLen, maxLen)
-	t := bufT(streamLen("L", 7, 9))
+	t := bufT(streamLen("L", 7, 7))
 	var sl []bool
 	if drawOrInvalid(t, func() { sl = g.value(t) }) {
 		checkLen(len(sl), minLen, maxLen, "slice")
@@ -242,7 +242,7 @@ func H_C03_ufloat64() {
 	// infinite (the unrestricted query does not finish inside the thorough budget)
 	emin, emax := int(bmin>>52), int(bmax>>52)
 	assume(emax-emin <= 1 || emin == 0 || emax == 0x7ff)
-	t := bufT(streamLen("L", 7, 9))
+	t := bufT(streamLen("L", 7, 7))
 	var e int32
 	var si, sf uint64
 	if drawOrInvalid(t, func() { e, si, sf = genUfloatRange(t.s, min, max, float64SignifBits) }) {
